@@ -77,8 +77,8 @@ func init() {
 var profStaticMix = &profile{weights: [6]int{55, 70, 80, 86, 94, 98}, plainStatic: true, maxSegs: 4, optionalPct: 40, innerOptPct: 5}
 
 var hdrNames = []string{"X-K", "x-k", "Accept", "X-Mode", "x-mode"}
-var hdrExprs = []string{"v", "^v$", "", "a|b", "[0-9]+", "^$", "x.x", `\d+`, "(?i)V", "v+?x", "^V$", "^[a-z]+$"}
-var hdrVals = []string{"v", "vv", "", "a", "7", "xvx", "b", "x-x", "V", "A"}
+var hdrExprs = []string{"v", "^v$", "", "a|b", "[0-9]+", "^$", "x.x", `\d+`, "(?i)V", "v+?x", "^V$", "^[a-z]+$", "(?i)^v$", "(?i)^websocket$"}
+var hdrVals = []string{"v", "vv", "", "a", "7", "xvx", "b", "x-x", "V", "A", "websocket", "WebSocket"}
 var reqMethods = []string{"GET", "GET", "GET", "GET", "POST", "POST", "HEAD", "PUT", "get", "Post"}
 var oddMethods = []string{"get", "", "FOO", "G\xffT", "GET ", "*", "TRACE", "CONNECT"}
 
